@@ -144,3 +144,23 @@ package time
 //@   loop 1 exit-uses umul_exact(val, 1000000000)
 //@   loop 1 exit assert 20 <= 20 + i + 1 && 20 + i + 1 <= n && (20 + i + 1 < n ==> fend(in, 20) == 20 + i + 1)
 //@   loop 1 exit assert 0 <= umul(val, mult) && umul(val, mult) < 1000000000 && umul(val, mult) == frac9(in, 20, 20 + i + 1)
+
+// ---------------------------------------------------------------- StringCodec: RFC 3339 strings
+// decoding reads a length-prefixed string and parses it; an empty string leaves the destination alone
+//@ func (StringCodec).Read
+//@   props C06, C12
+//@   let i0 := r.i, n := len(r.buf), e := vend(r.buf, r.i), l := vval(r.buf, r.i)
+//@   requires wfRB(r) && p != nil && rawalloc(p, 24) && tzInv()
+//@   requires [C12] !locked(tzLock)
+//@   ensures [C12] !locked(tzLock)
+//@   ensures [C06,C04,C03] i0 <= r.i && r.i <= n
+//@   ensures [C04,C03] err == nil ==> uvOK(r.buf, i0, e) && l >= 0 && r.i == e + int(l)
+//@   ensures [C18] tzInv()
+//@   modifies r.i, M[p, 24], map map[int]*time.Location, ghost lock.held
+
+//@ func (StringCodec).Write
+//@   props C02, C13
+//@   let b0 := w.buf
+//@   requires w != nil && p != nil && rawalloc(p, 24)
+//@   ensures [C13,C02] len(b0) <= len(w.buf) && (forall k int :: 0 <= k && k < len(b0) ==> w.buf[k] == old(b0[k]))
+//@   modifies w.buf, BH[w.buf]
